@@ -1,7 +1,7 @@
 import ESV.Macro.Order
 /-
 Lemmas about the model of MacroResolutionOrderVisitor (ESV/Macro/Order.lean): reachability, the cycle check, existence of
-minimal elements in finite acyclic graphs, breadth-first search, the remove-then-append merge.  Core Lean only.
+minimal elements in finite acyclic graphs, the graph built from an input.  Core Lean only.
 -/
 namespace ESV.Macro
 
@@ -283,357 +283,6 @@ theorem exists_minimal {g : Graph α} (ac : g.Acyclic) (R : List α) (hR : R ⊆
     omega
   obtain ⟨a, ha⟩ := exists_refl_of_pairwise_of_not_nodup hw.pairwise hnn
   exact ac a ha
-
-theorem mem_roots {g : Graph α} {r : α} : r ∈ g.roots ↔ r ∈ g.vs ∧ ∀ u, ¬ g.E u r := by
-  simp only [roots, List.mem_filter, List.all_eq_true, decide_eq_true_eq, E]
-  constructor
-  · rintro ⟨h1, h2⟩
-    exact ⟨h1, fun u hu => h2 (u, r) hu rfl⟩
-  · rintro ⟨h1, h2⟩
-    refine ⟨h1, ?_⟩
-    rintro ⟨a, b⟩ he hb
-    simp only at hb
-    exact h2 a (hb ▸ he)
-
-/-- in an acyclic graph every vertex is a root or reachable from a root -/
-theorem exists_root_reach {g : Graph α} (wf : g.WF) (ac : g.Acyclic) : ∀ v ∈ g.vs, ∃ r ∈ g.roots, r = v ∨ Path g.E r v := by
-  intro v hv
-  apply Classical.byContradiction
-  intro hbad
-  -- the vertices that are not reached from any root
-  let bad := g.vs.filter (fun x => !(g.roots.any (fun r => g.reach r x)))
-  have hmem : ∀ x, x ∈ bad ↔ x ∈ g.vs ∧ ∀ r ∈ g.roots, ¬ (r = x ∨ Path g.E r x) := by
-    intro x
-    simp only [bad, List.mem_filter, Bool.not_eq_true', List.any_eq_false]
-    constructor
-    · rintro ⟨h1, h2⟩
-      refine ⟨h1, fun r hr hrx => ?_⟩
-      have := h2 r hr
-      rw [(reach_iff wf (mem_roots.mp hr).1).mpr hrx] at this
-      exact this rfl
-    · rintro ⟨h1, h2⟩
-      refine ⟨h1, fun r hr => ?_⟩
-      intro h
-      exact h2 r hr ((reach_iff wf (mem_roots.mp hr).1).mp h)
-  have hvbad : v ∈ bad := (hmem v).mpr ⟨hv, fun r hr h => hbad ⟨r, hr, h⟩⟩
-  obtain ⟨m, hm, hmin⟩ := exists_minimal ac bad (fun x hx => ((hmem x).mp hx).1) (List.ne_nil_of_mem hvbad)
-  have hm' := (hmem m).mp hm
-  by_cases hroot : ∀ u, ¬ g.E u m
-  · exact hm'.2 m (mem_roots.mpr ⟨hm'.1, hroot⟩) (.inl rfl)
-  · have ⟨u, hum⟩ : ∃ u, g.E u m := by
-      apply Classical.byContradiction
-      intro h
-      exact hroot (fun u hu => h ⟨u, hu⟩)
-    have hu : u ∉ bad := hmin u hum
-    have : ¬ ∀ r ∈ g.roots, ¬ (r = u ∨ Path g.E r u) := fun h => hu ((hmem u).mpr ⟨wf.src _ _ hum, h⟩)
-    apply this
-    intro r hr hru
-    apply hm'.2 r hr
-    cases hru with
-    | inl h => exact .inr (h ▸ .single hum)
-    | inr p => exact .inr (p.snoc hum)
-
-/-! ## breadth-first search -/
-
-theorem subset_bfsLoop (g : Graph α) : ∀ (f : Nat) (done queue : List α), done ++ queue ⊆ g.bfsLoop f done queue := by
-  intro f
-  induction f with
-  | zero => intro done queue; simp [bfsLoop]
-  | succ f ih =>
-    intro done queue
-    cases queue with
-    | nil => simp [bfsLoop]
-    | cons v q =>
-      simp only [bfsLoop]
-      intro x hx
-      apply ih
-      simp only [List.append_assoc, List.singleton_append]
-      have : x ∈ done ++ v :: q := hx
-      simp only [List.mem_append, List.mem_cons] at this ⊢
-      cases this with
-      | inl h => exact .inl h
-      | inr h => exact .inr (h.elim .inl (fun h => .inr (.inl h)))
-
-/-- the search yields every vertex once, only vertices, and a set closed under successors -/
-theorem bfsLoop_spec {g : Graph α} (wf : g.WF) : ∀ (f : Nat) (done queue : List α),
-    (done ++ queue).Nodup → done ++ queue ⊆ g.vs → (∀ v ∈ done, ∀ w, g.E v w → w ∈ done ++ queue) →
-    g.vs.length ≤ done.length + f →
-    (g.bfsLoop f done queue).Nodup ∧ g.bfsLoop f done queue ⊆ g.vs ∧
-      ∀ v ∈ g.bfsLoop f done queue, ∀ w, g.E v w → w ∈ g.bfsLoop f done queue := by
-  intro f
-  induction f with
-  | zero =>
-    intro done queue hnd hsub hcl hlen
-    simp only [bfsLoop]
-    have hq : queue = [] := by
-      have h1 := List.Nodup.length_le_of_subset hnd hsub
-      simp only [List.length_append] at h1
-      exact List.eq_nil_of_length_eq_zero (by omega)
-    subst hq
-    refine ⟨hnd, hsub, ?_⟩
-    intro v hv w hvw
-    exact hcl v (by simpa using hv) w hvw
-  | succ f ih =>
-    intro done queue hnd hsub hcl hlen
-    cases queue with
-    | nil =>
-      simp only [bfsLoop]
-      simp only [List.append_nil] at hnd hsub hcl
-      exact ⟨hnd, hsub, hcl⟩
-    | cons v q =>
-      simp only [bfsLoop]
-      have heq : (done ++ [v]) ++ (q ++ (g.nbrs v).filter (fun w => w ∉ done ++ v :: q)) =
-          (done ++ v :: q) ++ (g.nbrs v).filter (fun w => w ∉ done ++ v :: q) := by simp
-      apply ih
-      · rw [heq, List.nodup_append]
-        refine ⟨hnd, ?_, ?_⟩
-        · exact (wf.nodup.sublist List.filter_sublist).sublist List.filter_sublist
-        · intro a ha b hb hab
-          simp only [List.mem_filter, decide_eq_true_eq] at hb
-          exact hb.2 (hab ▸ ha)
-      · rw [heq]
-        intro x hx
-        cases List.mem_append.mp hx with
-        | inl h => exact hsub h
-        | inr h =>
-          have := (List.mem_filter.mp h).1
-          exact wf.tgt _ _ ((mem_nbrs wf).mp this)
-      · rw [heq]
-        intro u hu w huw
-        cases List.mem_append.mp hu with
-        | inl h => exact List.mem_append_left _ (hcl u h w huw)
-        | inr h =>
-          have huv : u = v := by simpa using h
-          subst huv
-          by_cases hw : w ∈ done ++ u :: q
-          · exact List.mem_append_left _ hw
-          · apply List.mem_append_right
-            simp only [List.mem_filter, decide_eq_true_eq]
-            exact ⟨(mem_nbrs wf).mpr huw, hw⟩
-      · simp only [List.length_append, List.length_singleton]
-        omega
-
-theorem bfs_spec {g : Graph α} (wf : g.WF) {r : α} (hr : r ∈ g.vs) :
-    (g.bfs r).Nodup ∧ g.bfs r ⊆ g.vs ∧ r ∈ g.bfs r ∧ ∀ v ∈ g.bfs r, ∀ w, g.E v w → w ∈ g.bfs r := by
-  have h := bfsLoop_spec wf g.vs.length [] [r] (by simp) (by simpa using hr) (by simp) (by simp)
-  exact ⟨h.1, h.2.1, g.subset_bfsLoop _ _ _ (by simp), h.2.2⟩
-
-theorem mem_bfs_of_path {g : Graph α} (wf : g.WF) {r x : α} (hr : r ∈ g.vs) (h : r = x ∨ Path g.E r x) : x ∈ g.bfs r := by
-  obtain ⟨_, _, hrin, hcl⟩ := bfs_spec wf hr
-  cases h with
-  | inl h => exact h ▸ hrin
-  | inr p =>
-    have : ∀ a b, Path g.E a b → a ∈ g.bfs r → b ∈ g.bfs r := by
-      intro a b p
-      induction p with
-      | single h => exact fun ha => hcl _ ha _ h
-      | cons h _ ih => exact fun ha => ih (hcl _ ha _ h)
-    exact this _ _ p hrin
-
-/-- with a level function that every edge leaving a visited vertex raises by one, the search yields the vertices in
-non-decreasing level order -/
-theorem bfsLoop_sorted {g : Graph α} (wf : g.WF) (lv : α → Nat) : ∀ (f : Nat) (done queue : List α),
-    (∀ v w, g.E v w → v ∈ g.bfsLoop f done queue → lv w = lv v + 1) →
-    (done ++ queue).Pairwise (fun a b => lv a ≤ lv b) → (∀ x ∈ done ++ queue, ∀ y ∈ queue, lv x ≤ lv y + 1) →
-    (g.bfsLoop f done queue).Pairwise (fun a b => lv a ≤ lv b) := by
-  intro f
-  induction f with
-  | zero => intro done queue _ hs _; simpa [bfsLoop] using hs
-  | succ f ih =>
-    intro done queue hedge hs hb
-    cases queue with
-    | nil => simpa [bfsLoop] using hs
-    | cons v q =>
-      simp only [bfsLoop] at hedge ⊢
-      have heq : (done ++ [v]) ++ (q ++ (g.nbrs v).filter (fun w => w ∉ done ++ v :: q)) =
-          (done ++ v :: q) ++ (g.nbrs v).filter (fun w => w ∉ done ++ v :: q) := by simp
-      have hvfin : v ∈ g.bfsLoop f (done ++ [v]) (q ++ (g.nbrs v).filter (fun w => w ∉ done ++ v :: q)) :=
-        g.subset_bfsLoop _ _ _ (by simp)
-      have hnew : ∀ w ∈ (g.nbrs v).filter (fun w => w ∉ done ++ v :: q), lv w = lv v + 1 := by
-        intro w hw
-        exact hedge v w ((mem_nbrs wf).mp (List.mem_filter.mp hw).1) hvfin
-      have hvq : ∀ y ∈ q, lv v ≤ lv y := by
-        intro y hy
-        have := List.pairwise_append.mp hs
-        exact (List.pairwise_cons.mp this.2.1).1 y hy
-      apply ih _ _ hedge
-      · rw [heq, List.pairwise_append]
-        refine ⟨hs, ?_, ?_⟩
-        · apply List.Pairwise.imp_of_mem (R := fun _ _ => True)
-          · intro a b ha hb _
-            rw [hnew a ha, hnew b hb]
-            exact Nat.le_refl _
-          · exact List.pairwise_of_forall (fun _ _ => trivial)
-        · intro a ha b hbn
-          rw [hnew b hbn]
-          exact hb a ha v (by simp)
-      · rw [heq]
-        intro x hx y hy
-        cases List.mem_append.mp hy with
-        | inl hyq =>
-          have h1 : lv v ≤ lv y := hvq y hyq
-          cases List.mem_append.mp hx with
-          | inl hxo =>
-            have := hb x hxo v (by simp)
-            omega
-          | inr hxn =>
-            rw [hnew x hxn]
-            omega
-        | inr hyn =>
-          rw [hnew y hyn]
-          cases List.mem_append.mp hx with
-          | inl hxo =>
-            have := hb x hxo v (by simp)
-            omega
-          | inr hxn =>
-            rw [hnew x hxn]
-            omega
-
-theorem sublist_pair_of_sorted (lv : α → Nat) : ∀ {l : List α} {a b : α}, l.Pairwise (fun a b => lv a ≤ lv b) →
-    a ∈ l → b ∈ l → lv a < lv b → [a, b] <+ l := by
-  intro l
-  induction l with
-  | nil => intro a b _ ha; cases ha
-  | cons x t ih =>
-    intro a b hs ha hb hlt
-    rw [List.pairwise_cons] at hs
-    cases List.mem_cons.mp ha with
-    | inl hax =>
-      subst hax
-      cases List.mem_cons.mp hb with
-      | inl hbx => subst hbx; omega
-      | inr hbt => exact List.Sublist.cons_cons _ (List.singleton_sublist.mpr hbt)
-    | inr hat =>
-      cases List.mem_cons.mp hb with
-      | inl hbx =>
-        subst hbx
-        have := hs.1 a hat
-        omega
-      | inr hbt => exact List.Sublist.cons _ (ih hs.2 hat hbt hlt)
-
-/-- under the guard, every edge between visited vertices is respected by the order of the search from a root -/
-theorem bfs_respects_edges {g : Graph α} (wf : g.WF) {r : α} (hg : g.gradedFrom r = true) :
-    ∀ a b, g.E a b → a ∈ g.bfs r → b ∈ g.bfs r → [a, b] <+ g.bfs r := by
-  intro a b hab ha hb
-  simp only [gradedFrom, List.all_eq_true, decide_eq_true_eq] at hg
-  have hedge : ∀ v w, g.E v w → v ∈ g.bfs r → g.level r w = g.level r v + 1 := fun v w hvw hv => hg (v, w) hvw hv
-  have hs := bfsLoop_sorted wf (g.level r) g.vs.length [] [r] hedge (by simp) (by simp)
-  exact sublist_pair_of_sorted (g.level r) hs ha hb (by rw [hedge a b hab ha]; omega)
-
-/-! ## the remove-then-append merge -/
-
-theorem eraseAll_eq_filter : ∀ (loc order : List α), order.Nodup → eraseAll order loc = order.filter (fun x => x ∉ loc) := by
-  intro loc
-  induction loc with
-  | nil =>
-    intro order _
-    simp only [eraseAll, List.foldl_nil]
-    symm
-    apply List.filter_eq_self.mpr
-    intro a _
-    simp
-  | cons x loc ih =>
-    intro order hnd
-    have hstep : (if x ∈ order then order.erase x else order) = order.filter (fun y => y != x) := by
-      split
-      · exact List.Nodup.erase_eq_filter hnd x
-      · rename_i hx
-        symm
-        rw [List.filter_eq_self]
-        intro a ha
-        simp only [bne_iff_ne, ne_eq]
-        exact fun h => hx (h ▸ ha)
-    have : eraseAll order (x :: loc) = eraseAll (if x ∈ order then order.erase x else order) loc := by
-      simp [eraseAll]
-    rw [this, hstep, ih _ (hnd.sublist List.filter_sublist), List.filter_filter]
-    apply List.filter_congr
-    intro a _
-    by_cases h1 : a = x <;> by_cases h2 : a ∈ loc <;> simp [h1, h2]
-
-theorem mergeRoot_eq (g : Graph α) (order : List α) (r : α) (hnd : order.Nodup) :
-    g.mergeRoot order r = order.filter (fun x => x ∉ g.bfs r) ++ g.bfs r := by
-  simp [mergeRoot, eraseAll_eq_filter _ _ hnd]
-
-theorem foldl_mergeRoot_spec {g : Graph α} (wf : g.WF) : ∀ (rs order : List α), rs ⊆ g.vs → order.Nodup →
-    (rs.foldl g.mergeRoot order).Nodup ∧ ∀ x, x ∈ rs.foldl g.mergeRoot order ↔ x ∈ order ∨ ∃ r ∈ rs, x ∈ g.bfs r := by
-  intro rs
-  induction rs with
-  | nil => intro order _ hnd; simp [hnd]
-  | cons r rs ih =>
-    intro order hrs hnd
-    simp only [List.foldl_cons]
-    have hr : r ∈ g.vs := hrs (by simp)
-    have hb := bfs_spec wf hr
-    have hnd' : (g.mergeRoot order r).Nodup := by
-      rw [mergeRoot_eq g order r hnd, List.nodup_append]
-      refine ⟨hnd.sublist List.filter_sublist, hb.1, ?_⟩
-      intro a ha b hb' hab
-      simp only [List.mem_filter, decide_eq_true_eq] at ha
-      exact ha.2 (hab ▸ hb')
-    have hmem : ∀ x, x ∈ g.mergeRoot order r ↔ x ∈ order ∨ x ∈ g.bfs r := by
-      intro x
-      rw [mergeRoot_eq g order r hnd]
-      simp only [List.mem_append, List.mem_filter, decide_eq_true_eq]
-      constructor
-      · rintro (h | h)
-        · exact .inl h.1
-        · exact .inr h
-      · rintro (h | h)
-        · by_cases hx : x ∈ g.bfs r
-          · exact .inr hx
-          · exact .inl ⟨h, hx⟩
-        · exact .inr h
-    obtain ⟨h1, h2⟩ := ih _ (fun x hx => hrs (List.mem_cons_of_mem _ hx)) hnd'
-    refine ⟨h1, fun x => ?_⟩
-    rw [h2 x, hmem x]
-    simp only [List.mem_cons, exists_eq_or_imp]
-    constructor
-    · rintro ((h | h) | h)
-      · exact .inl h
-      · exact .inr (.inl h)
-      · exact .inr (.inr h)
-    · rintro (h | h | h)
-      · exact .inl (.inl h)
-      · exact .inl (.inr h)
-      · exact .inr h
-
-theorem foldl_mergeRoot_respects {g : Graph α} (wf : g.WF) : ∀ (rs order : List α), rs ⊆ g.vs → order.Nodup →
-    (∀ r ∈ rs, ∀ a b, g.E a b → a ∈ g.bfs r → b ∈ g.bfs r → [a, b] <+ g.bfs r) →
-    (∀ a b, g.E a b → a ∈ order → b ∈ order → [a, b] <+ order) →
-    ∀ a b, g.E a b → a ∈ rs.foldl g.mergeRoot order → b ∈ rs.foldl g.mergeRoot order → [a, b] <+ rs.foldl g.mergeRoot order := by
-  intro rs
-  induction rs with
-  | nil => intro order _ _ _ h; simpa using h
-  | cons r rs ih =>
-    intro order hrs hnd hgood hord
-    simp only [List.foldl_cons]
-    have hr : r ∈ g.vs := hrs (by simp)
-    have hb := bfs_spec wf hr
-    have hnd' : (g.mergeRoot order r).Nodup := (foldl_mergeRoot_spec wf [r] order (by simpa using hr) hnd).1
-    apply ih _ (fun x hx => hrs (List.mem_cons_of_mem _ hx)) hnd' (fun r' hr' => hgood r' (List.mem_cons_of_mem _ hr'))
-    intro a b hab ha hb'
-    rw [mergeRoot_eq g order r hnd] at ha hb' ⊢
-    by_cases haL : a ∈ g.bfs r
-    · have hbL : b ∈ g.bfs r := hb.2.2.2 a haL b hab
-      exact (hgood r (by simp) a b hab haL hbL).trans (List.sublist_append_right _ _)
-    · have haO : a ∈ order.filter (fun x => x ∉ g.bfs r) := by
-        cases List.mem_append.mp ha with
-        | inl h => exact h
-        | inr h => exact absurd h haL
-      by_cases hbL : b ∈ g.bfs r
-      · have h1 : [a] <+ order.filter (fun x => x ∉ g.bfs r) := List.singleton_sublist.mpr haO
-        have h2 : [b] <+ g.bfs r := List.singleton_sublist.mpr hbL
-        exact List.Sublist.append h1 h2
-      · have hbO : b ∈ order.filter (fun x => x ∉ g.bfs r) := by
-          cases List.mem_append.mp hb' with
-          | inl h => exact h
-          | inr h => exact absurd h hbL
-        have h0 := hord a b hab (List.mem_filter.mp haO).1 (List.mem_filter.mp hbO).1
-        have h1 := h0.filter (fun x => decide (x ∉ g.bfs r))
-        have h2 : [a, b].filter (fun x => decide (x ∉ g.bfs r)) = [a, b] := by
-          simp [haL, hbL]
-        rw [h2] at h1
-        exact h1.trans (List.sublist_append_left _ _)
 
 /-! ## the graph built from an input -/
 
